@@ -347,7 +347,27 @@ inline void t_options(In& in)
     char sep = in.chr(",;:|");
     std::string name = in.field();
     std::string val = in.rest();
-    if (bigNumbers(val)) return;
+    // Only the range forms a-b / a:b size their output by numeric literals: they are driven when every range
+    // spans at most 2000 values (whatever the magnitude of its ends: ranges next to INT_MAX are legal and small).
+    bool rangesSmall = true;
+    {
+      std::string tok;
+      for (size_t i = 0; i <= val.size(); ++i)
+      {
+        char ch = i < val.size() ? val[i] : sep;
+        if (ch != sep && ch != '(' && ch != ')') { tok += ch; continue; }
+        for (char rop : { '-', ':' })
+        {
+          size_t pos = tok.find(rop); // as the library does: first occurrence, an empty left end reads as 0
+          if (pos == std::string::npos) continue;
+          long double a = 0, b = 0;
+          try { a = std::stold(tok.substr(0, pos)); } catch (...) { a = 0; }
+          try { b = std::stold(tok.substr(pos + 1)); } catch (...) { b = 0; }
+          if (!(b - a <= 2000)) rangesSmall = false;
+        }
+        tok.clear();
+      }
+    }
     std::map<std::string, std::string> am;
     am[name] = val;
     auto tryIt = [](const std::function<void()>& f) { try { f(); } catch (bpp::Exception&) {} };
@@ -355,8 +375,11 @@ inline void t_options(In& in)
     tryIt([&] { use(ApplicationTools::getVectorParameter<int>(name, am, sep, "(1,2)").size()); });
     tryIt([&] { use(ApplicationTools::getVectorParameter<std::string>(name, am, sep, "").size()); });
     tryIt([&] { use(ApplicationTools::getVectorOfVectorsParameter<double>(name, am, sep, "").size()); });
-    tryIt([&] { use(ApplicationTools::getVectorParameter<int>(name, am, sep, '-', "", "", true, false).size()); });
-    tryIt([&] { use(ApplicationTools::getVectorParameter<int>(name, am, sep, ':', "", "", true, false).size()); });
+    if (rangesSmall)
+    {
+      tryIt([&] { use(ApplicationTools::getVectorParameter<int>(name, am, sep, '-', "", "", true, false).size()); });
+      tryIt([&] { use(ApplicationTools::getVectorParameter<int>(name, am, sep, ':', "", "", true, false).size()); });
+    }
     tryIt([&] { use(ApplicationTools::getMatrixParameter<double>(name, am, sep, "", "", true, false).getNumberOfRows()); });
     break;
   }
